@@ -1154,6 +1154,10 @@ SDcreate(int32       fid,  /* IN: file ID */
     var->cdf = handle; /* set cdf before calling NC_var_shape */
     /* get a new NDG ref for this sucker */
     var->ndg_ref = Hnewref(handle->hdf_file);
+    if (var->ndg_ref == 0) { /* every reference number of the file is in use */
+        NC_free_var(var);
+        HGOTO_ERROR(DFE_NOREF, FAIL);
+    }
 
     /* set ragged status. Why is this still here -GV */
     var->is_ragged = is_ragged;
